@@ -104,6 +104,12 @@ func genC02(seed int64, tier string) *Scenario {
 		sc.Sched = RandomSched(r)
 	}
 	docs := []string{"a.lua", "sub/b.lua"}
+	if r.Intn(4) == 0 {
+		// names an editor has to percent-encode in the document's URI (the model client encodes like
+		// VS Code; the server writes its own URIs unencoded)
+		docs[1] = []string{"sub dir/b c.lua", "mod+x/a+b.lua", "ünï/文件.lua", "sub/b~(1).lua"}[r.Intn(4)]
+		sc.Knobs["named"] = docs[1]
+	}
 	if r.Intn(2) == 0 {
 		docs = docs[:1]
 	}
@@ -450,12 +456,12 @@ func checkC02(t *testing.T, sc *Scenario) *Verdict {
 				d := endDocs[k]
 				k++
 				broken := false
-				for _, dg := range fr.View[URI(d.path)] {
+				for _, dg := range fr.View[ViewURI(d.path)] {
 					if strings.Contains(dg, "[Warn type:1]") {
 						broken = true // a buffer that does not parse is analysed from the last good state, which is history
 					}
 				}
-				for _, dg := range res.View[URI(d.path)] {
+				for _, dg := range res.View[ViewURI(d.path)] {
 					if strings.Contains(dg, "[Warn type:1]") {
 						broken = true
 					}
@@ -468,14 +474,19 @@ func checkC02(t *testing.T, sc *Scenario) *Verdict {
 					c := sc.Clone()
 					c.Sched = withTape(sc.Sched, res.Tape)
 					return v.violation("c02-analysed-text-differs", "document symbols of the open document differ from those of its text",
-						fmt.Sprintf("%s: the client holds %q; the server answers documentSymbol with %s, a fresh server given that text answers %s (fresh view %v, history view %v)", d.path, clip(d.text, 200), clip(d.symbols, 400), clip(got, 400), fr.View[URI(d.path)], res.View[URI(d.path)]), c)
+						fmt.Sprintf("%s: the client holds %q; the server answers documentSymbol with %s, a fresh server given that text answers %s (fresh view %v, history view %v)", d.path, clip(d.text, 200), clip(d.symbols, 400), clip(got, 400), fr.View[ViewURI(d.path)], res.View[ViewURI(d.path)]), c)
 				}
 			}
 		}
 	}
 	v.NonTrivial = applied >= 3
 	final := ""
-	for _, f := range []string{"a.lua", "sub/b.lua"} {
+	var openNames []string
+	for f := range prev {
+		openNames = append(openNames, f)
+	}
+	sort.Strings(openNames)
+	for _, f := range openNames {
 		final += string(prev[f]) + "\x00"
 	}
 	v.Shape = fmt.Sprintf("edits=%d final=%x", applied, hashString(final))
